@@ -25,7 +25,7 @@ type PageSpec struct {
 	Extras     bool  // add optional thrift fields a reader must skip (crc, unknown field)
 	Feature    string
 	// Feature: "" | "v2" | "index-before" | "enc-rle-bool" | "enc-delta" | "enc-delta-length" |
-	//          "levels-bitpacked" | "dict" (chunk-level, see ChunkSpec)
+	//          "levels-bitpacked" | "def-bitpacked" | "rep-bitpacked" | "dict" (chunk-level, see ChunkSpec)
 }
 
 // ChunkSpec describes one column chunk.
@@ -290,7 +290,7 @@ func encodePage(ch ChunkSpec, p PageSpec, dictIdx map[string]int) ([]byte, error
 		if repSegs == nil {
 			repSegs = GreedySegs(p.Reps)
 		}
-		if p.Feature == "levels-bitpacked" {
+		if p.Feature == "levels-bitpacked" || p.Feature == "rep-bitpacked" {
 			repBytes = msbBitPack(p.Reps, bitWidth(col.MaxRep))
 		} else if repBytes, err = EncodeSegs(p.Reps, bitWidth(col.MaxRep), repSegs, p.Pad); err != nil {
 			return nil, fmt.Errorf("rep levels: %v", err)
@@ -300,7 +300,7 @@ func encodePage(ch ChunkSpec, p PageSpec, dictIdx map[string]int) ([]byte, error
 		if defSegs == nil {
 			defSegs = GreedySegs(p.Defs)
 		}
-		if p.Feature == "levels-bitpacked" {
+		if p.Feature == "levels-bitpacked" || p.Feature == "def-bitpacked" {
 			defBytes = msbBitPack(p.Defs, bitWidth(col.MaxDef))
 		} else if defBytes, err = EncodeSegs(p.Defs, bitWidth(col.MaxDef), defSegs, p.Pad); err != nil {
 			return nil, fmt.Errorf("def levels: %v", err)
@@ -403,8 +403,13 @@ func encodePage(ch ChunkSpec, p PageSpec, dictIdx map[string]int) ([]byte, error
 		return nil, err
 	}
 	dp := NewSt().SetI32(1, int64(n)).SetI32(2, int64(enc)).SetI32(3, EncRLE).SetI32(4, EncRLE)
-	if p.Feature == "levels-bitpacked" {
+	switch p.Feature {
+	case "levels-bitpacked":
 		dp.SetI32(3, EncBitPacked).SetI32(4, EncBitPacked)
+	case "def-bitpacked":
+		dp.SetI32(3, EncBitPacked)
+	case "rep-bitpacked":
+		dp.SetI32(4, EncBitPacked)
 	}
 	if p.Stats {
 		dp.SetSt(5, statsStruct(p, col.MaxDef))
